@@ -171,12 +171,13 @@ def projection(o):
 
 
 # ---------------------------------------------------------------- cases
-def opw(kind, w, addr=WINDOW, variant=0):
-    """one operation word with operands that make its effect visible on the INIT pattern"""
+def opw(kind, w, addr=WINDOW, variant=0, be=False):
+    """one operation word with operands that make its effect visible on the INIT pattern (be: the cell value as the forced
+    big-endian configuration sees it, so that 'expected = initial cell' really hits there too)"""
     n = WIDTH[w]
     mask = (1 << (8 * n)) - 1
     off = addr - WINDOW
-    cell = int.from_bytes(init_state()[off:off + n], 'little')
+    cell = int.from_bytes(init_state(be)[off:off + n], 'big' if be else 'little')
     a = {'ld': None, 'st': 0x5A5A5A5A5A5A5A5A, 'add': 0xFFFFFFFFFFFFFFFF if variant else 1, 'sub': 3, 'and': 0x0F0F0F0F0F0F0F0F, 'or': 0xF0F0F0F0F0F0F0F0 if not variant else 0x0101010101010101,
          'xor': 0xFFFFFFFFFFFFFFFF, 'xchg': 0xA5A5A5A5A5A5A5A5 if not variant else 0x1111111111111111}.get(kind)
     if kind == 'ld':
@@ -257,14 +258,14 @@ def be_cases(tier, rmw_only=False):
     kinds = [('add', 0), ('xchg', 0), ('cas', 0), ('sub', 0)] if tier == 'quick' else [('add', 0), ('add', 1), ('sub', 0), ('and', 0), ('or', 0), ('xor', 0), ('xchg', 0), ('cas', 0), ('cas', 1), ('cas', 2)]
     for w in ((0, 5) if tier == 'quick' else range(7)):
         for (k1, v1), (k2, v2) in itertools.combinations_with_replacement(kinds, 2):
-            cs.append(('be 2x1 rmw', [opw(k1, w, variant=v1)], [opw(k2, w, variant=v2)]))
+            cs.append(('be 2x1 rmw', [opw(k1, w, variant=v1, be=True)], [opw(k2, w, variant=v2, be=True)]))
     if rmw_only:
         return cs
     # atomic load / store next to a read-modify-write of the same cell
     for w in ((0, 5) if tier == 'quick' else range(7)):
         for (k1, v1) in kinds[:3] if tier == 'quick' else kinds:
             for k2 in ('st', 'ld'):
-                cs.append(('be 2x1 rmw+load/store', [opw(k1, w, variant=v1)], [opw(k2, w)]))
+                cs.append(('be 2x1 rmw+load/store', [opw(k1, w, variant=v1, be=True)], [opw(k2, w, be=True)]))
     return cs
 
 
